@@ -162,6 +162,9 @@ def _same(a, b):
     return True  # non-array intermediates are not compared
 
 
+MAX_CONC_PAIRS = 400
+
+
 class Interleaver:
     """F7: run two task functions 'concurrently' with every interleaving decision
     taken by the simulator.  Each function runs in its own real thread, but only
@@ -363,11 +366,26 @@ class SimScheduler:
             return need
 
         need = needed_now()
+
+        def runnable():
+            return {k for k in need if all(d in results for d in deps[k])}
+
+        def finished(x):
+            """x has a result now: the ready set loses x and gains the needed dependents it completes"""
+            need.discard(x)
+            ready_set.discard(x)
+            for c in dependents[x]:
+                if c in need and all(d in results for d in deps[c]):
+                    ready_set.add(c)
+
+        # the ready set is kept incrementally (it used to be recomputed from `need` at every step, which made big
+        # graphs quadratic); it is rebuilt only when an eviction changes `need`
+        ready_set = runnable()
         while not wantset.issubset(results.keys()):
             steps += 1
             if steps > step_cap:
                 raise RuntimeError("SimScheduler: step cap exceeded (harness bug)")
-            ready = sorted([k for k in need if all(d in results for d in deps[k])], key=sort_key)
+            ready = sorted(ready_set, key=sort_key)
             if not ready:
                 raise RuntimeError("SimScheduler: no runnable needed task (harness bug)")
             for k in ready:
@@ -399,7 +417,10 @@ class SimScheduler:
             node = g[k]
             args = {d: self._deliver(results[d]) for d in deps[k]}
             partner = None
-            if self.p_conc > 0 and len(ready) > 1 and self.rng.random() < self.p_conc:
+            # (at most MAX_CONC_PAIRS interleaved pairs per compute: a pair costs two thread hand-overs per source
+            # line, and a 5000-task graph gains nothing from its 2000th pair; the cap is a count, so it replays)
+            if (self.p_conc > 0 and len(ready) > 1 and self.fired["conc_pairs"] < MAX_CONC_PAIRS
+                    and self.rng.random() < self.p_conc):
                 others = [x for x in ready if x != k]
                 partner = others[self.rng.randrange(len(others))]
             if partner is not None:
@@ -412,7 +433,7 @@ class SimScheduler:
                 self.tasks_executed += 2
                 self._log("run-pair", labels[k], labels[partner], il.switches)
                 results[partner] = rp
-                need.discard(partner)
+                finished(partner)
                 cs = _checksum(rp)
                 if cs is not None:
                     sums[partner] = cs
@@ -433,7 +454,7 @@ class SimScheduler:
                 r = r2
                 self._log("dup", labels[k])
             results[k] = r
-            need.discard(k)
+            finished(k)
             cs = _checksum(r)
             if cs is not None:
                 if k in sums and recompute and sums[k] != cs:
@@ -464,6 +485,7 @@ class SimScheduler:
                     self.fired["evict"] += 1
                     self._log("evict", labels[victim])
                     need = needed_now()
+                    ready_set = runnable()
         # final hazard probe on everything still stored
         for d, v in results.items():
             cs = _checksum(v)
